@@ -211,6 +211,7 @@ char sdk_dns_name[260];
 
 void (*sdk_sent_hook)(const uint8_t *p, int len, int result) = NULL;
 int sdk_conn_open = 0;
+int sdk_disc_pending = 0; /* the firmware closed a requested connection: its disconnect callback may still come */
 int sdk_sent_requires_open = 0; /* 1: without an established connection espconn_sent fails with ESPCONN_CONN */
 static sint8 do_sent(struct espconn *c, uint8 *p, uint16 len) {
   int r = sdk_esp_default;
@@ -238,6 +239,7 @@ sint8 espconn_secure_sent(struct espconn *c, uint8 *p, uint16 len) {
 static sint8 do_connect(struct espconn *c) {
   sdk_last_conn = c;
   sdk_conn_open = 1;
+  sdk_disc_pending = 0;
   if (c && c->proto.tcp)
     sdk_out("CONNECT %u.%u.%u.%u:%d", c->proto.tcp->remote_ip[0],
             c->proto.tcp->remote_ip[1], c->proto.tcp->remote_ip[2],
@@ -252,6 +254,7 @@ static sint8 do_disconnect(struct espconn *c) {
   sdk_out("DISCONNECT");
   /* an established connection is closed; a connect that is still in progress is not cancelled (the SDK
      reports ESPCONN_ARG and the attempt completes) unless a driver opts in */
+  if (sdk_conn_open) sdk_disc_pending = 1;
   if (sdk_conn_open != 1 || !sdk_sent_requires_open) sdk_conn_open = 0;
   if (sdk_disconnect_calls_cb && c && c->proto.tcp &&
       c->proto.tcp->disconnect_callback)
